@@ -102,10 +102,12 @@ class Cell:
         self.sign_rep = sign_rep or rng.choice(SIGN_REPS)
         self.verify_rep = verify_rep or rng.choice(VERIFY_REPS)
         self.payload_name = payload or rng.choice(PAYLOAD_NAMES)
+        self.header_flavour = rng.choice(["plain", "plain", "non-ascii", "rich", "empty-strings"])
+        self.decoy = rng.random() < 0.5   # a second key of another type in a key set of one
 
     def desc(self):
         return {"alg": self.alg, "form": self.form, "b64": self.b64, "placement": self.placement, "key_given": self.key_given,
-                "sign_rep": self.sign_rep, "verify_rep": self.verify_rep, "payload": self.payload_name}
+                "sign_rep": self.sign_rep, "verify_rep": self.verify_rep, "payload": self.payload_name, "header": self.header_flavour, "decoy": self.decoy}
 
 
 class Produced:
@@ -129,6 +131,13 @@ def produce(cell: Cell, rng):
     members = []
     for a, kid in zip(algs, kids):
         base = {"alg": alg_name(a), "typ": "JOSE+x"}
+        if cell.header_flavour == "non-ascii":
+            base["cty"] = "é世界 \U0001F600 \u00a0"
+            base["x5t"] = "naïve"
+        elif cell.header_flavour == "rich":
+            base.update({"jku": "https://example.com/jwks?a=1&b=é", "x5c": ["QUJD", "REVG"], "jwk": {"kty": "oct", "k": "AAAA", "nested": {"a": [1, None]}}})
+        elif cell.header_flavour == "empty-strings":
+            base.update({"cty": "", "typ": ""})
         if kid and (n > 1):
             base["kid"] = kid
         if cell.b64 != "absent":
@@ -154,7 +163,12 @@ def produce(cell: Cell, rng):
                         return k
                 return keys[0]
             return f
-        ks = j.KeySet(list(keys))
+        klist = list(keys)
+        if n == 1 and cell.decoy:
+            # a decoy of another key type: the produced token must name its key for the set to resolve it
+            dj = gen.new_okp("X25519") if keys[0].key_type != "OKP" else gen.new_oct(256)
+            klist.append(j.key({**dj, "kid": "decoy"}))
+        ks = j.KeySet(klist)
         if cell.key_given == "callable-keyset":
             return lambda obj, ks=ks: ks
         return ks
@@ -239,4 +253,9 @@ def members_match(p: Produced, got) -> str | None:
                         continue
                     return f"member {i} {part}: kid {extra['kid']!r} is not the kid of a key in the set"
                 return f"member {i} {part}: returned {gv!r}, given {ev!r}"
+        # the kid of the key chosen from a key set must be recorded
+        if p.used_set and "kid" not in (e.get("protected") or {}) and "kid" not in (e.get("header") or {}):
+            merged = {**(g.get("header") or {}), **(g.get("protected") or {})}
+            if merged.get("kid") != (p.skeys[i].kid if i < len(p.skeys) else None) or merged.get("kid") is None:
+                return f"member {i}: key chosen from a key set but the returned header carries kid {merged.get('kid')!r}, the key's kid is {p.skeys[i].kid!r}"
     return None
